@@ -327,10 +327,11 @@ Fixpoint r_mlist (lay : layout) (first : bool) (l : mlist) : list tok :=
   | (ga, gb, q) :: r =>
       (if first then [] else gopt lay ga ++ ch "," :: gopt lay gb) ++ r_mquery lay q ++ r_mlist lay false r
   end.
-(* MediaList keeps the media that take effect (medialist.py:130-155): a simple query (a bare media type) that repeats an
+(* MediaList keeps the media that take effect (medialist.py:130-156): a simple query (a bare media type) that repeats an
    earlier one is left out, and a simple `all` makes every other entry redundant *)
+(* the key is the normalised media type (repaired code: "print, PRINT" is a repetition, "ALL" is `all`) *)
 Definition mq_simple (q : mquery) : option str :=
-  match mq_type q, mq_neg q, mq_exprs q with Some t, 0, [] => Some t | _, _, _ => None end.
+  match mq_type q, mq_neg q, mq_exprs q with Some t, 0, [] => Some (lower t) | _, _, _ => None end.
 Definition is_all (q : mquery) : bool := match mq_simple q with Some t => eqs t (s "all") | None => false end.
 Fixpoint dedupe (seen : list str) (l : list mquery) : list mquery :=
   match l with
